@@ -125,6 +125,22 @@ fn zref<'a>(st: &'a State, z: &ZRef) -> Option<TimeZoneRef<'a>> {
     }
 }
 
+#[cfg(feature = "tz-alloc")]
+mod vfs {
+    //! in-memory filesystem behind the read function (only the builds with an allocator have the resolution path)
+    use std::collections::BTreeMap;
+    use std::sync::Mutex;
+    pub static FILES: Mutex<BTreeMap<String, Vec<u8>>> = Mutex::new(BTreeMap::new());
+    pub static ASKED: Mutex<Vec<String>> = Mutex::new(Vec::new());
+    pub fn read(path: &str) -> Result<Vec<u8>, Box<dyn std::error::Error + Send + Sync + 'static>> {
+        ASKED.lock().unwrap().push(path.to_string());
+        match FILES.lock().unwrap().get(path) {
+            Some(b) => Ok(b.clone()),
+            None => Err(Box::new(std::io::Error::from_raw_os_error(2))),
+        }
+    }
+}
+
 fn exec_op(sc: &Scenario, st: &mut State, op: &Op) -> OpOut {
     let mut o = OpOut { core: None, alloc: None, noalloc_violation: None };
     let mut core = String::new();
@@ -201,6 +217,23 @@ fn exec_op(sc: &Scenario, st: &mut State, op: &Op) -> OpOut {
                 }
                 o.alloc = Some(a);
             }
+        }
+        #[cfg(feature = "tz-alloc")]
+        Op::Resolve { tz, dirs, .. } => {
+            let dirv: Vec<&str> = dirs.iter().filter_map(|i| sc.dirs.get(*i).map(|s| s.as_str())).collect();
+            vfs::ASKED.lock().unwrap().clear();
+            let r = catch_unwind(AssertUnwindSafe(|| tz::timezone::TimeZoneSettings::new(&dirv, vfs::read).parse_posix_tz(&tz.value())));
+            let mut a = String::new();
+            for p in vfs::ASKED.lock().unwrap().iter() {
+                let _ = write!(a, "open {p:?};");
+            }
+            match r {
+                Ok(Ok(z)) => canon::zone(&mut a, z.as_ref()),
+                Ok(Err(e)) => canon::err(&mut a, &e),
+                Err(_) => a.push_str("PANIC"),
+            }
+            o.alloc = Some(a);
+            return o;
         }
         Op::Lookup { z, t } => match zref(st, z) {
             Some(zr) => {
@@ -376,6 +409,18 @@ pub fn exec_scenario(sc: &Scenario, mut per_op: impl FnMut(usize, &Op, &OpOut)) 
         owned: (0..8).map(|_| None).collect(),
         bufs: (0..3).map(|_| Vec::new()).collect(),
     };
+    #[cfg(feature = "tz-alloc")]
+    {
+        let mut f = vfs::FILES.lock().unwrap();
+        f.clear();
+        for fi in &sc.files {
+            if let Some(Content::Gen(z)) = sc.contents.get(fi.cid) {
+                if let Some(b) = z.bytes() {
+                    f.insert(fi.path.clone(), b);
+                }
+            }
+        }
+    }
     let mut hc: u64 = 0xcbf2_9ce4_8422_2325;
     let mut ha: u64 = 0xcbf2_9ce4_8422_2325;
     let mut viol = Vec::new();
